@@ -62,8 +62,10 @@ def run_auto(program, schedule):
                         pimod.time.sleep(op[1])
                     elif op[0] == "raise":
                         raise Boom("body failed")
+                    elif op[0] == "raise-ki":
+                        raise KeyboardInterrupt()
             res["outcome"] = "ok"
-        except Boom as e:
+        except (Boom, KeyboardInterrupt) as e:
             res["outcome"] = "raised"
             res["error"] = e
         except sched.Abort:
@@ -85,7 +87,7 @@ def run_auto(program, schedule):
 
 def judge_auto(ctx, part, case, res):
     program = case["program"]
-    raising = any(op[0] == "raise" for op in program)
+    raising = any(op[0] in ("raise", "raise-ki") for op in program)
 
     def fail(clause, expected, observed, sig=None, exc=None):
         ctx.fail(part, clause, case, expected, observed, sig=sig, exc=exc)
@@ -136,19 +138,19 @@ def judge_auto(ctx, part, case, res):
 def check_auto(ctx, case, part="auto-random"):
     res = run_auto([tuple(o) for o in case["program"]], case["schedule"])
     n_pre = sched.preemptions([d[1] for d in res["decisions"]], res["decisions"])
-    ctx.case(part, case, n_pre >= 1 or any(o[0] == "raise" for o in case["program"]),
+    ctx.case(part, case, n_pre >= 1 or any(o[0] in ("raise", "raise-ki") for o in case["program"]),
              ["c19:preemptions-%d" % min(n_pre, 3)])
     judge_auto(ctx, part, case, res)
 
 
-PROGRAM_OPS = [("msg", "M1"), ("msg", "M2"), ("work", 0), ("work", 0.05), ("work", 0.25), ("raise",)]
+PROGRAM_OPS = [("msg", "M1"), ("msg", "M2"), ("work", 0), ("work", 0.05), ("work", 0.25), ("raise",), ("raise-ki",)]
 
 
 def programs(maxlen):
     for n in range(0, maxlen + 1):
         for p in itertools.product(PROGRAM_OPS, repeat=n):
             # a raise ends the body
-            if any(op[0] == "raise" for op in p[:-1]):
+            if any(op[0] in ("raise", "raise-ki") for op in p[:-1]):
                 continue
             yield [list(o) for o in p]
 
@@ -173,7 +175,7 @@ def shard_enum(ctx, arg):
             full = [d[1] for d in decisions]
             case = {"program": program, "schedule": full}
             n_pre = sched.preemptions(full, decisions)
-            ctx.case("auto-enum", case, n_pre >= 1 or any(o[0] == "raise" for o in program),
+            ctx.case("auto-enum", case, n_pre >= 1 or any(o[0] in ("raise", "raise-ki") for o in program),
                      ["c19:preemptions-%d" % min(n_pre, 3)], distinct_by_construction=True)
             if not judge_auto(ctx, "auto-enum", case, res):
                 break
@@ -287,7 +289,7 @@ PARTS = {"auto-enum": lambda ctx, c: check_auto(ctx, c, part="auto-enum"), "auto
 
 def _random_case(ctx):
     prog = st.lists(st.sampled_from(PROGRAM_OPS[:5]), max_size=4).flatmap(
-        lambda p: st.booleans().map(lambda r: [list(o) for o in p] + ([["raise"]] if r else [])))
+        lambda p: st.sampled_from([None, None, "raise", "raise-ki"]).map(lambda r: [list(o) for o in p] + ([[r]] if r else [])))
     return st.fixed_dictionaries({"program": prog, "schedule": st.lists(st.integers(0, 3), max_size=120)})
 
 
